@@ -25,6 +25,7 @@ def run(ctx, sess):
     P, L = setup(sess)
     exc = exceptions('C07')
     ctx.rule('C07.1', 'flush ticket is published only after the file was synced: jls_wr_flush (which reaches fsync) dominates every store to flush_processed_id in the consumer')
+    ctx.rule('C07.11', 'a flush covers everything submitted before it: every successful return of jls_twr_flush follows a FLUSH message queued by this very call, and the ticket it waits for is a fresh one (send counter + 1) on every path - never a ticket taken by another caller earlier')
     ctx.rule('C07.2', 'jls_twr_flush returns 0 only through the edge on which flush_processed_id has reached the ticket; the deadline edge returns non-zero')
     ctx.rule('C07.3', 'drain: the consumer\'s inner loop is left only on an empty queue, and `quit` is tested only by the outer loop')
     ctx.rule('C07.4', 'close order: join (jls_bkt_finalize) dominates jls_wr_close dominates free(self)')
@@ -116,6 +117,7 @@ def run(ctx, sess):
 
     # ---- C07.3
     drain_rule(ctx, P, 'C07.3')
+    own_flush_rule(ctx, P)
 
     # ---- C07.4
     cl = P.fn('jls_twr_close')
@@ -333,3 +335,38 @@ def drain_rule(ctx, P, rule):
                        and any(n_.get('op') == 'member' and n_.get('field') == 'quit' for n_ in walk(b.cond))]
         ctx.ob(rule, bool(outer_tests), run_fn.name, '`quit` tested by the outer loop', run_fn.where(), '%d test(s) outside the drain loop' % len(outer_tests))
 
+
+def own_flush_rule(ctx, P):
+    fl = P.fn('jls_twr_flush')
+    ctx.saw(fl, 1)
+    sends = [c for c in fl.calls() if c.callee in ('msg_send', 'msg_send_inner')]
+    w = find_path(fl, 'entry', lambda ev, facts: 'stop' if ev in sends else ('target' if (ev.k == 'ret' and ret_class(fl, ev, facts) in ('zero',)) else None))
+    ctx.ob('C07.11', w is None and bool(sends), fl.name, 'a FLUSH message is queued on every path to success', fl.where(),
+           'msg_send lies on every path to `return 0`' if (w is None and sends) else
+           'jls_twr_flush can return 0 without having queued a FLUSH message of its own: messages submitted after the flush it piggy-backs on are not covered',
+           w.render() if w else None)
+    # the ticket waited for
+    n = 0
+    for b in fl.blocks.values():
+        c = strip_casts(b.cond) if b.cond is not None else None
+        if c is None or c.get('op') != 'bin' or c['o'] not in ('<', '<=', '>', '>='):
+            continue
+        sides = c['k']
+        if not any(nd.get('op') == 'member' and nd.get('field') == 'flush_processed_id' for nd in walk(c)):
+            continue
+        for x in sides:
+            x0 = strip_casts(x)
+            if x0.get('op') == 'ref' and x0.get('rk') == 'local':
+                n += 1
+                defs, entry = df.reaching_defs(fl, x0['name'], b, len(b.events))
+                stale = []
+                for d_ in defs:
+                    rhs = d_.store_parts()[1]
+                    fresh = rhs is not None and any(nd.get('op') == 'bin' and nd['o'] == '+' and const_of(nd['k'][1]) == 1 and
+                                                   any(m.get('op') == 'member' and m.get('field') == 'flush_send_id' for m in walk(nd['k'][0])) for nd in walk(rhs))
+                    if not fresh:
+                        stale.append(show(d_.e)[:50] if d_.e else d_.name)
+                ctx.ob('C07.11', not stale and not entry and bool(defs), fl.name, 'the ticket waited for is fresh', '%s:%d' % (fl.file, b.line),
+                       '%s = flush_send_id + 1 on every path' % x0['name'] if (not stale and defs) else
+                       'on some path the ticket is %s: the caller waits for a flush that was requested before its own messages' % (stale or ['undefined'])[0])
+    ctx.floor('ticket compares in jls_twr_flush', n, 1)
